@@ -1317,7 +1317,7 @@ def do_load(w, op, p):
     # a dict handed over in memory those are the source model's tensors, so later writes are shared by design
     assign = bool(op.get("assign")) and rec["ser"] != "direct"
     into = w.deps.get(op.get("into")) if op.get("into") is not None else None
-    if into is not None and (into.broken or into.model is None or not into.quantized or json.dumps(into.arch, sort_keys=True) != json.dumps(rec["arch"], sort_keys=True) or into.dtype != rec["dtype"]):
+    if into is not None and (into.broken or into.model is None or not into.quantized or json.dumps(into.arch, sort_keys=True) != json.dumps(rec["arch"], sort_keys=True)):
         into = None
     q = rec["qcfg"]
     if into is not None:
@@ -1385,7 +1385,12 @@ def do_load(w, op, p):
         # itself (it starts a lineage of its own); what the load did to *others* is
         n.memo, n.oplog, n.src_fid = {}, [], None
         n.stamp += 1000
+        n.dtype = into.dtype
         side_effects(w, n, op, others_before, held_before, base_sig, p)
+        check_weights_invariant(w, n, "load:existing", p)  # C06: whatever deserialization returns is consistent
+        if into.dtype != rec["dtype"]:
+            n.broken = True  # a model of two dtypes: nothing further is asked of it
+            return "ok:existing-mixed-dtypes"
         return "ok:existing"
     # (c) the loaded model holds what was saved
     try:
@@ -1552,6 +1557,7 @@ def do_train(w, d, op, p):
     d.train_mode = True
     exc = None
     out = None
+    detached = False
     try:
         with torch.enable_grad():
             outs, grads = [], []
@@ -1563,7 +1569,15 @@ def do_train(w, d, op, p):
                     xs.append(x2.clone().requires_grad_(True))
             for j, xi in enumerate(xs):
                 out = d.model(xi)
+                if op.get("peek"):
+                    # the caller looks at the output without autograd first (accuracy, logging), then builds the loss
+                    with torch.no_grad():
+                        _ = (out.dequantize() if R.is_q(out) else out).sum()
+                        _ = out.argmax() if out.numel() else None
+                    w.probe("output_read_under_no_grad_before_loss")
                 o = out.dequantize() if R.is_q(out) else out
+                if not o.requires_grad and any(prm.requires_grad for prm in d.model.parameters()):
+                    detached = True
                 G = archs.gen_payload(tuple(o.shape), o.dtype, op.get("gseed", 1) + j, "noise", op.get("gmag", 1.0))
                 if op.get("noncontig") and G.ndim >= 2:
                     G = G.transpose(-1, -2).contiguous().transpose(-1, -2)
@@ -1580,6 +1594,9 @@ def do_train(w, d, op, p):
         d.stamp += 1
     recs = list(d.obs)
     d.obs, d.open = [], []
+    if detached and w.focus("C11"):
+        w.judged("C11")
+        w.violate("C11", "grads", "train", {"issue": "output_detached", "peek": bool(op.get("peek"))}, "the model's (dequantized) output does not require grad although its input and parameters do: no gradient can reach them", p)
     if exc is not None:
         # a backward (or forward) that raises where the float module's runs
         site = quanto_site(exc)
@@ -1667,4 +1684,45 @@ def do_wupdate(w, d, op, p):
         return "skipped"
     d.stamp += 1
     freshness_check(w, d, how, p)
+    return "ok"
+
+
+def do_refill_forward(w, d, op, p):
+    """The caller refills the batch tensor it used before, in place and behind the back of torch's version
+    counter (`x.data.copy_`, a staging buffer shared with numpy), and evaluates it again: the result must be the
+    one a fresh tensor with the same contents gives (C13: evaluation depends on the input's values only)."""
+    from .engine_l import WorkloadError
+
+    if w.depth > 0 or not d.quantized:
+        return "skipped"
+    cache = w.__dict__.setdefault("input_cache", {})
+    ck1 = (input_key(op["input"]), tuple(d.in_shape), d.dtype)
+    x = cache.get(ck1)
+    if x is None or R.is_q(x):
+        return "skipped"
+    new = make_input(d, op["input2"])
+    if R.is_q(new) or tuple(new.shape) != tuple(x.shape) or new.dtype != x.dtype:
+        return "skipped"
+    x.data.copy_(new)
+    cache.pop(ck1, None)
+    key2 = input_key(op["input2"])
+    cache[(key2, tuple(d.in_shape), d.dtype)] = x
+    d.obs, d.open = [], []
+    try:
+        with torch.no_grad():
+            out1 = d.model(x)
+            out2 = d.model(x.clone())
+    except (InjectedFault, InjectedInterrupt):
+        raise
+    except Exception as e:
+        d.obs, d.open = [], []
+        w.probe("workload_error:" + type(e).__name__)
+        raise WorkloadError(e)
+    d.obs, d.open = [], []
+    w.judged("C13")
+    w.probe("batch_object_refilled_in_place")
+    if R.tensor_digest(out1) != R.tensor_digest(out2):
+        q = d.qcfg or {}
+        w.violate("C13", "repeat", "refill_forward", {"wq": q.get("weights"), "aq": q.get("activations"), "how": "batch_object_refilled_in_place"}, "a batch tensor refilled in place evaluates differently from a fresh tensor holding the same values", p)
+    memo_check(w, d, key2, out2, p, "refill_forward")
     return "ok"
